@@ -1,2 +1,85 @@
-/- C11 correspondence driver (stub: replaced when the property's model is built) -/
-def main : IO Unit := IO.println "stub"
+import PnVerif.Model.IoStatus
+import PnVerif.Gen.ErrMap
+import PnVerif.Gen.IoSites
+/-
+  C11 correspondence driver.  One request per line on stdin, one answer per line on stdout.
+
+    P <site id> <chain row ids joined by ','  or '-'> <MPI class value> <later 0|1>
+        -> <pick> | <possible outcomes ...> | <row that drops the failure or '-'> | <api name or '?'>
+
+  `site id`/`chain row ids` identify the rows of the GENERATED tables the run-time backtrace of the
+  fault-injection harness went through; the answer is what the model says the driver entry point
+  returns.  `later` = the same request mix has a later phase that overwrites `err` (a wait_all with
+  gets after the puts): selects the element of an `overwritable` row, exactly as `commitStatus`.
+
+    T  -> number of sites, chains, paths (sanity line)
+-/
+open PnVerif.IoStatus PnVerif.Gen.IoSites PnVerif.Gen.ErrMap
+
+def ncOf (cls : Nat) : Int := mpi2nc explicitMap defaultCode cls
+
+/-- deterministic evaluation of one row for incoming code r -/
+def pickRow (pattern : Pattern) (out : Outcome) (later : Bool) (r : Int) : Option Int :=
+  match out.eval r with
+  | [v] => some v
+  | [a, b] =>
+    if pattern == .overwritable then
+      -- [commitStatus true false r 0, commitStatus true true r 0]
+      some (if later then commitStatus true true a b else commitStatus true false a b)
+    else none
+  | _ => none
+
+def splitOn (s : String) (c : Char) : List String := (s.splitOn (String.singleton c)).filter (· != "")
+
+def answer (siteId chainS clsS laterS : String) : String :=
+  match sites.find? (fun s => s.id == siteId), clsS.toNat? with
+  | some s, some cls =>
+    let ids := if chainS == "-" then [] else splitOn chainS ','
+    let rows := ids.map (fun id => chains.find? (fun c => c.id == id))
+    if rows.any (·.isNone) then "unknown-chain-row" else
+    let rows := rows.filterMap id
+    let later := laterS == "1"
+    let m := ncOf cls
+    -- well-formedness of the observed path against the table
+    let linked := (rows.foldl (fun (acc : Option String) ch =>
+        match acc with
+        | some f => if ch.callee == f then some ch.caller else none
+        | none => none) (some s.func))
+    match linked with
+    | none => "path-not-linked"
+    | some api =>
+      let inTable := paths.any (fun p => p.fn == s.fn && p.chainKeys == rows.map (·.key))
+      let all := runChains rows (s.out.eval m)
+      -- deterministic pick + first dropping row
+      let step := fun (acc : Option Int × String) (nm : String) (pat : Pattern) (out : Outcome) =>
+        match acc.1 with
+        | none => acc
+        | some r =>
+          if r == 0 then acc else
+          match pickRow pat out later r with
+          | none => (none, acc.2)
+          | some v => (some v, if v == 0 && acc.2 == "-" then nm else acc.2)
+      let a0 : Option Int × String :=
+        match pickRow s.pattern s.out later m with
+        | none => (none, "-")
+        | some v => (some v, if v == 0 then s.id else "-")
+      let fin := rows.foldl (fun acc ch => step acc ch.id ch.pattern ch.out) a0
+      let pick := match fin.1 with | some v => toString v | none => "ambiguous"
+      s!"{pick} | {String.intercalate " " (all.map toString)} | {fin.2} | {api} | {if inTable then "in-table" else "NOT-IN-TABLE"}"
+  | _, _ => "bad-request"
+
+def step (line : String) : String :=
+  match splitOn line.trimAscii.toString ' ' with
+  | ["P", site, chain, cls, later] => answer site chain cls later
+  | ["T"] => s!"{sites.length} {chains.length} {paths.length}"
+  | _ => "bad-op"
+
+partial def loop (h : IO.FS.Stream) (out : IO.FS.Stream) : IO Unit := do
+  let line ← h.getLine
+  if line.isEmpty then return ()
+  out.putStrLn (step line)
+  loop h out
+
+def main : IO Unit := do
+  let out ← IO.getStdout
+  loop (← IO.getStdin) out
